@@ -12,974 +12,967 @@ Definition show_fres (r : fres) : string :=
   end.
 Definition check (rs : list rune) : string := digest (show_fres (format_res rs)).
 Definition full (rs : list rune) : string := show_fres (format_res rs).
-Eval vm_compute in ("<<<M1342>>>" ++ check (runes_of_ascii "// top
-options
-    // c0
-{ StringPrefixLenType
-    // c2
-= u64 ; ArrayPrefixLenType // c6
-= u32
-    // c8
-; // c9a
+Eval vm_compute in ("<<<M1360>>>" ++ check (runes_of_ascii "options { // c1
+FixedStringPadFromLeft // c2a
+  // c2b
+= true // c4
+; FixedStringPadChar // c6
+= // c7
+'0' ; // c9a
   // c9b
-FixedStringPadFromLeft
-    // c10
-=
+} // c10
+packet
     // c11
-false // c12
-; } // c14
-packet // c15
-Party // c16
-{ zchar[ // c18
-7 // c19
-] // c20
-OrderId // c21a
+Leg { repeat // c14
+InSym93 // c15
+{ zchar[
+    // c17
+3 // c18a
+  // c18b
+] // c19
+Acct
+    // c20
+, // c21a
   // c21b
-, // c22
-InTail6 { // c24
-repeat // c25a
-  // c25b
-char[ // c26
-1 ] // c28
-msgKind , // c30
-char[
-    // c31
-3 // c32a
-  // c32b
-] Tail , char[
+string // c22a
+  // c22b
+Side2 , // c24a
+  // c24b
+i32 // c25
+Flags ,
+    // c27
+f32 // c28
+Note , i32 // c31a
+  // c31b
+msgKind
+    // c32
+, } // c34
+, // c35
+f64
     // c36
-3 // c37a
-  // c37b
-]
+Note ,
     // c38
-Flags // c39
-, // c40a
+uint16 Px // c40a
   // c40b
-i16 tag7
-    // c42
-, // c43a
+, // c41
+} packet // c43a
   // c43b
-} ,
-    // c45
-@rightPad
-    // c46
-(
-    // c47
-'0' // c48
-) char[ // c50
-12 // c51a
-  // c51b
-]
-    // c52
-clOrdID
+Quote // c44
+{ zchar[ // c46
+2 // c47a
+  // c47b
+] OrderId // c49a
+  // c49b
+,
+    // c50
+}
+    // c51
+packet Ack
     // c53
-, // c54
-} packet // c56a
-  // c56b
-Quote // c57a
-  // c57b
-{ @leftPad // c59
-( // c60
-'0' // c61a
-  // c61b
-)
-    // c62
-char[ // c63a
-  // c63b
-11
-    // c64
-]
-    // c65
-price // c66a
-  // c66b
-, // c67
-repeat InCount7 // c69
-{ // c70
-i32 // c71
-x // c72
-, // c73a
-  // c73b
-Party , // c75a
-  // c75b
-u8 // c76a
-  // c76b
-Ref // c77a
-  // c77b
-, u8 // c79
-tag7 // c80
-, // c81
-} ,
-    // c83
-char[] // c84
-seqNo // c85
-,
-    // c86
-Party
-    // c87
-, // c88
-} // c89
-packet // c90
-Logon // c91a
-  // c91b
-{ @rightPad // c93a
-  // c93b
+{ // c54
+repeat // c55a
+  // c55b
+string // c56
+lastPx , zchar[ 4 // c60
+] price , // c63
+uint32 // c64
+OrderId , Quote // c67a
+  // c67b
+, int8
+    // c69
+Acct
+    // c70
+, } packet
+    // c73
+Fill
+    // c74
+{
+    // c75
+repeat
+    // c76
+Leg
+    // c77
+, // c78a
+  // c78b
+@rightPad
+    // c79
 (
-    // c94
-'\x00'
-    // c95
-) // c96a
-  // c96b
-char[ // c97
-5 ] // c99
+    // c80
+'0'
+    // c81
+) // c82a
+  // c82b
+char[ 11 ] // c85
 Note
-    // c100
-, i16 sym // c103
-, // c104a
-  // c104b
-InPrice72 // c105
-{ // c106
-char[ 9 // c108
-]
-    // c109
-Ref // c110
+    // c86
 ,
-    // c111
-zchar[
-    // c112
-1 ] venue // c115
-, // c116a
-  // c116b
-} // c117a
-  // c117b
-, // c118a
-  // c118b
-char[]
+    // c87
+f64
+    // c88
+Px // c89
+, // c90
+@rightPad
+    // c91
+( '\x00' // c93a
+  // c93b
+)
+    // c94
+char[
+    // c95
+5 // c96
+] // c97
+Flags , zchar[
+    // c100
+9
+    // c101
+] // c102a
+  // c102b
+x // c103
+, // c104
+string msgKind , // c107
+}
+    // c108
+root packet
+    // c110
+Order // c111
+{ Leg , // c114
+repeat Ack , // c117
+@rightPad (
     // c119
-clOrdID
-    // c120
-, // c121a
-  // c121b
-} // c122
-root
-    // c123
-packet // c124
-Reject { // c126
+'\x00' )
+    // c121
+char[ // c122
+3 // c123a
+  // c123b
+]
+    // c124
+Side2 // c125a
+  // c125b
+, // c126a
+  // c126b
 repeat // c127a
   // c127b
-Logon // c128
-, // c129a
-  // c129b
-@leftPad ( // c131
-' ' // c132
-) // c133a
-  // c133b
 char[
-    // c134
-4 // c135a
-  // c135b
-] // c136a
-  // c136b
-seqNo
+    // c128
+1 ] // c130
+seqNo // c131
+, u16 // c133
+clOrdID // c134a
+  // c134b
+, match
+    // c136
+clOrdID
     // c137
-,
-    // c138
-zchar[ // c139a
-  // c139b
-5
-    // c140
-] // c141
-Acct // c142
-, // c143
-u32
-    // c144
-x
-    // c145
-, // c146
-u16
-    // c147
-f1
-    // c148
-@lengthOf( // c149a
+as // c138
+Body { // c140
+198 // c141
+:
+    // c142
+Leg
+    // c143
+, 23 // c145a
+  // c145b
+: // c146a
+  // c146b
+Quote // c147a
+  // c147b
+, // c148a
+  // c148b
+13 // c149a
   // c149b
-Body // c150a
-  // c150b
-)
-    // c151
-, match x // c154a
-  // c154b
-as
-    // c155
-Body // c156a
-  // c156b
-{ // c157a
+:
+    // c150
+Ack // c151a
+  // c151b
+, 159 // c153a
+  // c153b
+: Fill // c155
+, // c156
+} // c157a
   // c157b
-[
-    // c158
-169
-    // c159
-, 74 ]
-    // c162
-:
-    // c163
-Quote
-    // c164
-, // c165
-45 // c166a
-  // c166b
-: Party // c168a
-  // c168b
-, // c169
-7 // c170
-:
-    // c171
-Logon , // c173
-} // c174
-,
-    // c175
-} // c176a
-  // c176b
+, u32 venue @calculatedFrom( ""CRC32"" ) // c163a
+  // c163b
+, // c164
+} // c165a
+  // c165b
 ")).
-Eval vm_compute in ("<<<M313>>>" ++ check (runes_of_ascii "options { BodyLength = char[ 7] ;	}
-// c
-// @lengthOf(
-packet asx// " ++ [128512]%N ++ runes_of_ascii " emoji
-{ int16
-    x_y_z , @calculatedFrom(
-    """" ) @lengthOf(
-    /// triple
-    chars) //
-repeat repeatCount
-charz
-/// triple
-// " ++ [27880; 37322]%N ++ runes_of_ascii "
-, @leftPad ( ) i64_@calculatedFrom(
-""\" ++ [233]%N ++ runes_of_ascii """	) `// not a comment` , tag Z9_
-`two words` ,
-@lengthOf( asx
-)@calculatedFrom(
-""`tick`""
-    )match uint8x as
-matchKey
-    {0123456789
-// packet A { u8 x, }
-// a // b
-: u8x ,1 : zchar , } ,u128 @lengthOf( u128 // packet A { u8 x, }
-)// " ++ [128512]%N ++ runes_of_ascii " emoji
-, } MetaData	msg_type  {
-string
-BodyLength  `two words` , options1// " ++ [128512]%N ++ runes_of_ascii " emoji
-i64_ ,
-    }// " ++ [128512]%N ++ runes_of_ascii " emoji
-packet roots { u `` , @calculatedFrom( ""a	b"")match len as	msg_type{
-    // c
-    """ ++ [28040; 24687]%N ++ runes_of_ascii """
-:
-charz}, crc @calculatedFrom(
-// packet A { u8 x, }
-// packet A { u8 x, }
-""it's"" ) `a\`
-,@leftPad
-( '0' )@tag( 007	) zchar[// trailing space 
-3
-    // trailing space 
-    ] falsey ,  @calculatedFrom(// `tick` ""quote"" 'q'
-""\n""
-    )@calculatedFrom(""CRC32""// c
-)
-    // trailing space 
-    match
-    //x
-    Packet as // @lengthOf(
-stringy	{ 1:
+Eval vm_compute in ("<<<M383>>>" ++ check (runes_of_ascii "options {
+	StringPrefixLenType = u16;
+	ArrayPrefixLenType = u16;
+}
+
+packet SampleBinary {
+    uint16 MsgType `" ++ [28040; 24687; 31867; 22411]%N ++ runes_of_ascii "`,
+    u16 BodyLenght @lengthOf(Body) `" ++ [28040; 24687; 20307; 38271; 24230]%N ++ runes_of_ascii "`,
+    match MsgType as Body {
+        1 : Logon,
+        2 : Logout,
+        3 : Heartbeat,
+        4 : RiskControlRequest,
+        5 : RiskControlResponse,
+    },
+        @calculatedFrom(""CRC32"")
+    u32 Ckecksum `" ++ [26657; 39564; 21644]%N ++ runes_of_ascii "`,
+}
+
+packet Logon {
+     @leftPad('0')
+    char[10] UserName `" ++ [29992; 25143; 21517]%N ++ runes_of_ascii "`,
+    string Password `" ++ [23494; 30721]%N ++ runes_of_ascii "`,
+    uint64 ClientId `" ++ [23458; 25143; 31471]%N ++ runes_of_ascii "ID`,
+    u16 HeartbeatInterval `" ++ [24515; 36339; 38388; 38548]%N ++ runes_of_ascii "`,
+}
+
+packet Logout {
+      @rightPad('0')
+    char[10] UserName `" ++ [29992; 25143; 21517]%N ++ runes_of_ascii "`,
+    uint64 ClientId `" ++ [23458; 25143; 31471]%N ++ runes_of_ascii "ID`,
+}
+
+packet Heartbeat {
+}
+
+packet RiskControlRequest {
+    string UniqueOrderId `" ++ [21807; 19968; 35746; 21333; 21495]%N ++ runes_of_ascii "`,
+    char[16] ClOrdID `" ++ [23458; 25143; 35746; 21333; 21495]%N ++ runes_of_ascii "`,
+    char[3] MarketID `" ++ [24066; 22330]%N ++ runes_of_ascii "id`,
+    char[12] SecurityID `" ++ [35777; 21048; 20195; 30721]%N ++ runes_of_ascii "`,
+    char Side `" ++ [20080; 21334; 26041; 21521]%N ++ runes_of_ascii "`,
+    char OrderType `" ++ [35746; 21333; 31867; 22411]%N ++ runes_of_ascii "`,
+    u64 Price `" ++ [20215; 26684]%N ++ runes_of_ascii "`,
+    u32 Qty `" ++ [25968; 37327]%N ++ runes_of_ascii "`,
+    repeat string ExtraInfo `" ++ [38468; 21152; 20449; 24687]%N ++ runes_of_ascii "`,
+    repeat SubOrder {
+    		char[16] ClOrdID `" ++ [23376; 35746; 21333; 21495]%N ++ runes_of_ascii "`,
+    		u64 Price `" ++ [23376; 35746; 21333; 20215; 26684]%N ++ runes_of_ascii "`,
+    		u32 Qty `" ++ [23376; 35746; 21333; 25968; 37327]%N ++ runes_of_ascii "`,
+    	},
+}
+
+packet RiskControlResponse {
+    string UniqueOrderId `" ++ [21807; 19968; 35746; 21333; 21495]%N ++ runes_of_ascii "`,
+    i32 Status `" ++ [29366; 24577]%N ++ runes_of_ascii "`,
+    string Msg `" ++ [32467; 26524; 20449; 24687]%N ++ runes_of_ascii "`,
+    repeat Detail,
+}
+
+packet Detail {
+    string RuleName `" ++ [35268; 21017; 21517; 31216]%N ++ runes_of_ascii "`,
+    u16 Code `" ++ [21407; 22240; 20195; 30721]%N ++ runes_of_ascii "`,
+}")).
+Eval vm_compute in ("<<<M1624>>>" ++ check (runes_of_ascii "packet  falsey
+
+{
+
+    i64_ ,charz{	match
+
+Packet	as
 Pad
-, ""it's"" :f32a ,
-} , @leftPad (
-' '
-)
-    match // " ++ [27880; 37322]%N ++ runes_of_ascii "
-int as	a1 { [ 0123456789 ,255]
+
+{
+""\n"" : 
+Packet  ,
+    ""// no comment""// " ++ [128512]%N ++ runes_of_ascii " emoji
+
+: f32a// `tick` ""quote"" 'q'
+
+  ,
+	[  
+      /// triple
+    3
+    ,
+4294967296, 
+10,	//
+  7	,
+    10 ]
     :
-    options1
-//x
-//x
-}
-    ,BodyLength
-    //
-    @calculatedFrom( """ ++ [28040; 24687]%N ++ runes_of_ascii """ ),
-float32
-    zchar
-@calculatedFrom( ""// no comment""
-)
-,	@tag( 10 ) zchar[
-    // packet A { u8 x, }
-    1  ] rootA , }
-")).
-Eval vm_compute in ("<<<M1364>>>" ++ check (runes_of_ascii "options { // c1
-LittleEndian = // c3
-true ; // c5a
-  // c5b
-StringPrefixLenType = // c7
-u64 // c8a
-  // c8b
-; // c9a
-  // c9b
-ArrayPrefixLenType // c10
-= // c11
-u16 // c12
-; // c13a
-  // c13b
-FixedStringPadFromLeft
-    // c14
-= // c15a
-  // c15b
-false // c16
-; FixedStringPadChar = ' ' // c20a
-  // c20b
-; } packet // c23a
-  // c23b
-Logon // c24a
-  // c24b
-{ // c25a
-  // c25b
-zchar[ 5 // c27
-] // c28a
-  // c28b
-Side2 // c29
-, // c30
-} root
-    // c32
-packet Logout
-    // c34
-{ // c35
-repeat i64 // c37a
-  // c37b
-Tail , // c39a
-  // c39b
-Logon // c40
-, // c41a
-  // c41b
-repeat i16 // c43
-OrderId
-    // c44
-,
-    // c45
-char[] venue
-    // c47
-,
-    // c48
-uint64 x // c50
-, // c51a
-  // c51b
-repeat
-    // c52
-i16 // c53
-count // c54a
-  // c54b
-, u8
-    // c56
-Flags // c57
-, // c58
-match // c59a
-  // c59b
-Flags // c60
-as // c61
-Body // c62
-{ // c63a
-  // c63b
-25
-    // c64
-: // c65a
-  // c65b
-Logon , // c67
-} , // c69
-u16 // c70
-Qty // c71a
-  // c71b
-@calculatedFrom( // c72
-""CRC32"" ) , // c75
-} // c76
-")).
-Eval vm_compute in ("<<<M1433>>>" ++ check (runes_of_ascii "packet i8i8 {
-    @tag(0)
-    int32 leftPad `it's`,
-    repeat char[] Header `crlf
-    line`,
-    @calculatedFrom(""\" ++ [233]%N ++ runes_of_ascii """)
-    /// triple
-    repeat uint8 float,
-    @rightPad('\x00')
-    char[] zchar @lengthOf(leftPad) `
-    `,
-    Z9_,
-    @lengthOf(x)
-    match As as tag {
-        ""a	b"" : string_,
-        [
-            10, 7, 255, 3, 42,
-            0123456789, ""1"", """ ++ [128512]%N ++ runes_of_ascii """
-        ] : x_y_z,
-        ""CRC32"" : Z9_,
-        00 : Logon,
-    },
-    @tag(007)
-    o {
-        char Packet @lengthOf(repeatCount),
-    },
-    @lengthOf(pack)
-    float64 rootA `two words`,
-    repeat char[] BodyLength,
-}
 
-packet Z9_ {
-    match As as a1 {
-        //
-        0 : trueish,
-    },
-}
+u ,  // trailing space 
+    ""`tick`""
+    :	u8x
+,  [
+	7,
 
-root packet u8x {
-    /// triple
-    // " ++ [128512]%N ++ runes_of_ascii " emoji
-    repeat string Logon `tab	here`,// " ++ [128512]%N ++ runes_of_ascii " emoji
-}
+""it's""
 
-options {
-    _x = ""packet"";
-    f32a = 007
-}
+    ]:
+Packet,
 
-packet i8i8 {
-    @calculatedFrom(""CRC32"")
-    A @lengthOf(a1),
-}")).
-Eval vm_compute in ("<<<M1377>>>" ++ check (runes_of_ascii "// top
-options
-    // c0
-{
-    // c1
-LittleEndian = // c3a
-  // c3b
-true // c4a
-  // c4b
-; // c5
-} // c6
-packet // c7
-Logon { // c9a
-  // c9b
-u8 x
-    // c11
-, }
-    // c13
-packet
-    // c14
-Logout // c15
-{ u16
-    // c17
-reason // c18a
-  // c18b
-, // c19
-} root // c21
-packet
-    // c22
-Frame {
-    // c24
-i8 Kind // c26
-, i8 // c28
-Kind2 , // c30a
-  // c30b
-match // c31
-Kind // c32a
-  // c32b
-as // c33
-Body // c34a
-  // c34b
-{
-    // c35
-1
-    // c36
-: // c37a
-  // c37b
-Logon // c38
-, // c39
-[ 2 // c41a
-  // c41b
-, // c42a
-  // c42b
-3 , // c44
-4 ] // c46
-: // c47
-Logout
-    // c48
-, // c49
-100 // c50
-: // c51
-Logon , }
-    // c54
-, // c55
-match Kind2 // c57
-as // c58a
-  // c58b
-Trailer // c59a
-  // c59b
-{
-    // c60
 0
-    // c61
-:
-    // c62
-Logout , // c64
-} // c65
-, // c66a
-  // c66b
-} // c67a
-  // c67b
-")).
-Eval vm_compute in ("<<<M1871>>>" ++ check (runes_of_ascii "packet
-	pack
-	    // c
-    // packet A { u8 x, }
 
-{
-	u8 a1
-	// trailing space 
-	/// triple
-  	`say ""hi""` // packet A { u8 x, }
-	,@leftPad (
-'\x00' 
-)
-	uint8
-Logon
-	`
-` 	 // `tick` ""quote"" 'q'
-      ,
+    : len 
 
-char[]lengthOf// " ++ [27880; 37322]%N ++ runes_of_ascii "
-    	`" ++ [233]%N ++ runes_of_ascii "`
+    //
 
-,
-//
-//x
-repeat char[]
-As ,
-    //	t
-	@lengthOf(
+, } ,}, 	 /// triple
+  @lengthOf(
 
-    string_
-    ) @calculatedFrom(""a\\""
-)repeat
+    f32a  )  char[
+    3
 
-    u8x	o
-	,char 
-string_ @calculatedFrom(
-
-""a\""b"" )	`tab	here`
-
-    ,
-	repeat As	{
-
-char[  
-  // packet A { u8 x, }
-    	0 
-] i64_ //	t
-	@lengthOf(
-T)`" ++ [233]%N ++ runes_of_ascii "`
-,  char[
-4294967296]  T @calculatedFrom( ""\" ++ [233]%N ++ runes_of_ascii """
-) 
+]options1 @lengthOf(	Pad )
 , 
-trueish
-,
-repeat  int
-{string
-	Logon
-	@calculatedFrom(""1"" 
-)
-	,	metadata
+zchar[	0123456789 
+] 	 // trailing space 
+T  ``,
+    } packet	Pad
+    {
 
-    ,	uint32
+    // c
+    	o	roots `{ , }`	// " ++ [128512]%N ++ runes_of_ascii " emoji
+	  , }
 
-    Z9_,	// " ++ [27880; 37322]%N ++ runes_of_ascii "
-  }
-,
-
-    }
-
-,
-
-@tag(00	)	//	t
-  i16 
-a1
-
-    `a\` , } ")).
-Eval vm_compute in ("<<<M1873>>>" ++ check (runes_of_ascii "options {
-}
-
-packet u8x {
-    string uint8x @calculatedFrom(""{,}"") `crlf
-    line`,
-}
-
-MetaData falsey {
-    Logon packetx `tab	here`,
-}
-
-root packet o {
-    falsey @calculatedFrom(""" ++ [28040; 24687]%N ++ runes_of_ascii """),
-    @tag(0123456789)
-    // `tick` ""quote"" 'q'
-    char[0123456789] u128 @calculatedFrom(""{,}""),
-    @tag(00)
-    @lengthOf(stringy)
-    @tag(4294967296)
-    rootA Header,
-    @lengthOf(As)
-    repeat leftPad `// not a comment`,
-    i8 leftPad @calculatedFrom(""""),
-    @tag(10)
-    zchar[007] packetx @lengthOf(u8x) `" ++ [28040; 24687; 31867; 22411]%N ++ runes_of_ascii "`,
-}
-
-packet options1 {
-    //	t
-    // trailing space 
-    falsey {
-        //	t
-        zchar[3] roots,
-        u32 Header,
-    },// a // b
-}")).
-Eval vm_compute in ("<<<M1239>>>" ++ check (runes_of_ascii "// top
-options // c0
-{ // c1a
-  // c1b
-zchar // c2
-= // c3a
-  // c3b
-true // c4
-; Pad // c6a
-  // c6b
-=
-    // c7
-char[ 00 // c9a
-  // c9b
-]
-    // c10
-a1 = // c12a
-  // c12b
-uint32 // c13a
-  // c13b
-BodyLength = true // c16a
-  // c16b
-;
-    // c17
-} root // c19
-packet // c20
-T // c21a
-  // c21b
-{
-    // c22
-@lengthOf( // c23a
-  // c23b
-repeatCount ) @tag( // c26a
-  // c26b
-1
-    // c27
-) // c28a
-  // c28b
-@calculatedFrom( // c29
-""a	b"" // c30a
-  // c30b
-) // c31a
-  // c31b
-string // c32
-stringy @calculatedFrom( ""\n"" ) // c36
-`u8 x,` // c37a
-  // c37b
-, // c38
-} // c39
-")).
-Eval vm_compute in ("<<<M45>>>" ++ check (runes_of_ascii "
 packet
-tag{ string matchKey `line1
-line2` , @tag( 0 )// c
-@calculatedFrom( ""1"" )@calculatedFrom( // " ++ [128512]%N ++ runes_of_ascii " emoji
-""a\""b"" ) float64 matchKey
-,}options
-{ crc
-    = true
-    msg_type
-    //	t
-    =
-true;
-} packet o { match  roots
-as calculatedFrom { ""// no comment""
-    // packet A { u8 x, }
-    :
-    msg_type	, ""{,}""
-    :u128, [
-    65535 , 0123456789
-]/// triple
-: body ,// " ++ [128512]%N ++ runes_of_ascii " emoji
-} ,@rightPad ( ' '	) repeat
-string_ i64_ ,
+
+    f32a {
+
+    _x//
+
+@calculatedFrom(
+	""x y"" 
+) //x
+	,
+@tag(  65535 
+) 	 //	t
+	char pack@lengthOf(
+    zchar
+	)
+	,	repeat	//
+    int64 falsey 
+,
+
+repeat  len
+{	match
+A as rootA	{
+	[42
+	,""\n""  ]: Z9_ ,
+
+},repeat i16
+	A  ,
+repeat
+zchar[ 65535 ] tag `
+`  , f64
+
+float
+
 @lengthOf(
-lengthOf )@tag( 255// packet A { u8 x, }
-)	@tag( 00 )
-char[]
-stringy
-, }
-")).
-Eval vm_compute in ("<<<M291>>>" ++ check (runes_of_ascii "root
-// " ++ [27880; 37322]%N ++ runes_of_ascii "
-// @lengthOf(
-packet
-    Packet
-{ string o @calculatedFrom( ""\" ++ [233]%N ++ runes_of_ascii """)
-, @lengthOf( Packet
-    // packet A { u8 x, }
-    ) body @calculatedFrom( // @lengthOf(
-""x y"" )
-`it's` ,
-float64 As @calculatedFrom( ""`tick`""	), char[]	stringy  @calculatedFrom(""" ++ [28040; 24687]%N ++ runes_of_ascii """	) `doc` , @calculatedFrom(""a	b"") match
-float as o{ [ """ ++ [128512]%N ++ runes_of_ascii """
-    ,007]
-    :metadata
+f32a )``
+
+    , 
+    // `tick` ""quote"" 'q'
+	  // packet A { u8 x, }
+  },x 
+u8x	,
+
+    @tag(  42
+) repeat
+
+    As
+	Packet
+
 ,
-} ,f32a a1 `a\` , }
-MetaData
-repeatCount
-    { packetx i64_ `" ++ [28040; 24687; 31867; 22411]%N ++ runes_of_ascii "` , // " ++ [128512]%N ++ runes_of_ascii " emoji
+	@lengthOf(
+    Pad )repeat  f64
+    rootA , 	 // @lengthOf(
+	}")).
+Eval vm_compute in ("<<<M1343>>>" ++ check (runes_of_ascii "  options { 
+StringPrefixLenType
+= u64
+
+; ArrayPrefixLenType=	u32
+    ;  FixedStringPadFromLeft =
+    false
+;
+    } packet
+Party{ 
 zchar[
-3
-] tag ,
-i8i8 int , }
-")).
-Eval vm_compute in ("<<<M1421>>>" ++ check (runes_of_ascii "
-options
-	{
+7]OrderId
+, InTail6{
+
+    repeat
+char[
+1  ] 
+msgKind	,char[
+
+    3]
+Tail ,char[ 
+3 ]
+
+    Flags	,
+i16
+tag7	, 
 }
-	MetaData	string_  // `tick` ""quote"" 'q'
-  {u32 matchKey
-`u8 x,`
 
-    ,
+,@rightPad
 
-    string
-MetaDataX
-    ,uint8
-    Logon ,  uint64 options1 ,	char[
-00
-    ]
+    ('0'
+)
 
-    len 
-        // `tick` ""quote"" 'q'
-  // trailing space 
-	`tab	here`  ,
+    char[
 
-u8 
-options1
+12 ]clOrdID
+	,}
+	packet	Quote
+    {@leftPad
+('0' 
+)
+    char[
+	11]
+price ,repeat  InCount7  { i32
+    x
+,Party,u8  Ref
+
+    , u8 tag7
 , 
-}// a // b
-  packet
-    a1
-    {chars
+} ,
+	char[]	seqNo
 	,
 
-char[]
-i64_
+    Party, } packet  Logon
+{@rightPad(
 
-    @lengthOf( 
-        // " ++ [27880; 37322]%N ++ runes_of_ascii "
-		stringy  )	,char  T	,
-	repeat
-    i8
+    '\x00'
+	)
+char[
+    5
 
-charz  `a\` 
+]
+	Note,
+
+i16
+    sym
+
+    ,InPrice72{char[	9 ]  Ref
+, zchar[ 1 ]
+    venue , } ,
+    char[]
+
+    clOrdID 
+,	}
+	root
+packet
+Reject {
+    repeat Logon
+
+,
+@leftPad	( ' '
+	)
+    char[
+4
+] seqNo,
+zchar[ 5]
+    Acct
+
+    ,
+	u32
+
+    x,
+    u16
+	f1	@lengthOf(
+
+Body )	, match
+
+x
+
+as
+Body
+{
+[169,	74
+	] 
+:
+Quote
 , 
+45 :
+Party,7
+
+:
+
+    Logon 
+, }
+
+    , }
+")).
+Eval vm_compute in ("<<<M1359>>>" ++ check (runes_of_ascii "options {
+    FixedStringPadFromLeft = true;
+    FixedStringPadChar = '0';
+}
+packet Leg {
+    repeat InSym93 {
+        zchar[3] Acct,
+        string Side2,
+        i32 Flags,
+        f32 Note,
+        i32 msgKind,
+    },
+    f64 Note,
+    uint16 Px,
+}
+packet Quote {
+    zchar[2] OrderId,
+}
+packet Ack {
+    repeat string lastPx,
+    zchar[4] price,
+    uint32 OrderId,
+    Quote,
+    int8 Acct,
+}
+packet Fill {
+    repeat Leg,
+    @rightPad('0') char[11] Note,
+    f64 Px,
+    @rightPad('\x00') char[5] Flags,
+    zchar[9] x,
+    string msgKind,
+}
+root packet Order {
+    Leg,
+    repeat Ack,
+    @rightPad('\x00') char[3] Side2,
+    repeat char[1] seqNo,
+    u16 clOrdID,
+    match clOrdID as Body {
+        198 : Leg,
+        23 : Quote,
+        13 : Ack,
+        159 : Fill,
+    },
+    u32 venue @calculatedFrom(""CRC32""),
 }
 ")).
-Eval vm_compute in ("<<<M1262>>>" ++ check (runes_of_ascii "// top
-packet // c0
-B // c1
+Eval vm_compute in ("<<<M1117>>>" ++ check (runes_of_ascii "// top
+MetaData
+    // c0
+Packet
+    // c1
 {
     // c2
-u8
+}
     // c3
-a , } root packet // c8a
-  // c8b
-P // c9a
-  // c9b
+packet
+    // c4
+charz
+    // c5
 {
+    // c6
+Foo
+    // c7
+asx
+    // c8
+`it's`
+    // c9
+,
     // c10
-u8 // c11
-K , // c13
-u64 // c14a
-  // c14b
-L @lengthOf( // c16a
-  // c16b
-Body
+@lengthOf(
+    // c11
+T
+    // c12
+)
+    // c13
+@calculatedFrom(
+    // c14
+""""
+    // c15
+)
+    // c16
+@calculatedFrom(
     // c17
-) , match // c20a
-  // c20b
-K as // c22a
-  // c22b
-Body // c23
-{ // c24a
-  // c24b
-1 : // c26a
-  // c26b
-B // c27a
-  // c27b
+""x y""
+    // c18
+)
+    // c19
+zchar[
+    // c20
+007
+    // c21
+]
+    // c22
+repeatCount
+    // c23
+@lengthOf(
+    // c24
+int
+    // c25
+)
+    // c26
+`a\`
+    // c27
 ,
     // c28
-} // c29
-, // c30
-}
-    // c31
-")).
-Eval vm_compute in ("<<<M1412>>>" ++ check (runes_of_ascii "  // top
-
-	MetaData 	 // c0
-leftPad	// c1
-{	// c2
-chars	// c3
-  MetaDataX // c4
-
-, 	 // c5
-    	} // c6
-
-packet 	 // c7
-
-  repeatCount	// c8
-    {// c9
-	char[ // c10
-  255 // c11
-    ]  // c12
-  uint8x  // c13
-  `" ++ [233]%N ++ runes_of_ascii "` 	 // c14
-	,// c15
-}  // c16
-MetaData	// c17
-	pack// c18
-	  {	// c19
-	As 	 // c20
-	Foo // c21
-    ,	// c22
-  	} 	 // c23
-")).
-Eval vm_compute in ("<<<M1799>>>" ++ check (runes_of_ascii "packet BodyLength {
-    repeatCount `// not a comment`,
-    @lengthOf(lengthOf)
-    @tag(65535)
-    @rightPad('0')
-    /// triple
-    u8 Logon,
-}
-
-packet chars {
-    o msg_type,
-    @tag(10)
-    zchar[65535] f32a,
-    repeat char[] i64_ `
-        `,
-}
-
-root packet f32a {
-    @tag(255)
-    repeat u8 stringy,
-}")).
-Eval vm_compute in ("<<<M1138>>>" ++ check (runes_of_ascii "// top
-MetaData // c0
-leftPad // c1
-{ // c2
-chars // c3
-MetaDataX // c4
-, // c5
-} // c6
-packet // c7
-repeatCount // c8
-{ // c9
-char[ // c10
-255 // c11
-] // c12
-uint8x // c13
-`" ++ [233]%N ++ runes_of_ascii "` // c14
-, // c15
-} // c16
-MetaData // c17
-pack // c18
-{ // c19
-As // c20
-Foo // c21
-, // c22
-} // c23
-")).
-Eval vm_compute in ("<<<M254>>>" ++ check (runes_of_ascii "packet  zchar
-{ zchar[ 42
-//
-//
-]uint8x ,
-    match
-    A as
-As{
-    0: int
-    ,
-}
-, @tag(7 ) @calculatedFrom(
-""packet"" ) match
-i64_
-as metadata //	t
-{
-    ""CRC32"" :
-A , }
+i8
+    // c29
+string_
+    // c30
 ,
-    // c
-    }	root
+    // c31
+repeat
+    // c32
+options1
+    // c33
+Pad
+    // c34
+,
+    // c35
+}
+    // c36
+root
+    // c37
 packet
-uint8x {
-    char[ 00 ]	crc
-,// " ++ [128512]%N ++ runes_of_ascii " emoji
-} 	 ")).
-Eval vm_compute in ("<<<M82>>>" ++ check (runes_of_ascii "packet metadata
-{int32 calculatedFrom , } options {} options { u128 = '\x00'	;
-    string_ =	""abc""
-    ; }root
-packet i8i8
-    {  @rightPad
-( '\x00' ) repeat	metadata { string_,
-    tag@lengthOf( falsey ) ,
-} ,//x
-}")).
-Eval vm_compute in ("<<<M357>>>" ++ check (runes_of_ascii "MetaData x_y_z
+    // c38
+Packet
+    // c39
 {
-lengthOf // packet A { u8 x, }
-rootA , MetaDataX// " ++ [128512]%N ++ runes_of_ascii " emoji
-_x , char[ 4294967296 ] stringy , char[
+    // c40
+int8
+    // c41
+float
+    // c42
+`doc`
+    // c43
+,
+    // c44
+}
+    // c45
+")).
+Eval vm_compute in ("<<<M1764>>>" ++ check (runes_of_ascii "packet charz {
+    //	t
+    repeat i64_,
+    trueish {
+        repeat _x,
+        repeatCount,
+        repeat u16 matchKey `
+        `,
+        // " ++ [128512]%N ++ runes_of_ascii " emoji
+        // a // b
+        matchKey @calculatedFrom(""a\""b"") `it's`,
+    },
+    @tag(007)
+    @calculatedFrom(""a\\"")
+    @tag(3)
+    f32 f32a @lengthOf(asx) `crlf
+    line`,
+    repeat i8 string_,
+    @lengthOf(Logon)
+    @lengthOf(x_y_z)
+    @lengthOf(zchar)
+    repeat char[65535] Foo `" ++ [233]%N ++ runes_of_ascii "`,
+    @calculatedFrom(""abc"")
+    trueish @lengthOf(A),
+    char[0] float,
+    Packet @calculatedFrom(""a	b""),
+}
+
+MetaData Pad {
+    char[00] leftPad,
+    u8 rootA `
+    `,
+    int32 a1 `say ""hi""`,
+    Z9_ float,
+    i32 Pad,
+}")).
+Eval vm_compute in ("<<<M147>>>" ++ check (runes_of_ascii "root
+    packet falsey{	@tag( 255) len@calculatedFrom( ""`tick`""
+    )//
+,match MetaDataX as
+crc
+{	[7 ] :
+    roots ,} ,	@tag( 10 ) @tag(
+// `tick` ""quote"" 'q'
+// `tick` ""quote"" 'q'
+10//
+) @tag( 255)	repeat /// triple
+uint64 rootA	, tag // a // b
+`" ++ [28040; 24687; 31867; 22411]%N ++ runes_of_ascii "` ,
+float32  i64_ , int64 _x  `doc` , @leftPad( ' '
+    )
+match
+// @lengthOf(
+// @lengthOf(
+i8i8 as pack { // `tick` ""quote"" 'q'
+7 : Logon , ""x y"" : lengthOf , } , // trailing space 
+match x_y_z as u
+{
+// `tick` ""quote"" 'q'
+// " ++ [27880; 37322]%N ++ runes_of_ascii "
+[ 0123456789 ] :	packetx ,007 :x_y_z
+// trailing space 
 //
-// c
-007
-] u128
-, tag u8x `line1
-line2` ,  uint8 u128 , }
+, 10 : rootA , 7 : u 0123456789 :falsey
+, }	, // packet A { u8 x, }
+}
 ")).
-Eval vm_compute in ("<<<M1196>>>" ++ check (runes_of_ascii "// top
-packet // c0a
-  // c0b
-body
-    // c1
-{ i32 // c3
-f32a
-    // c4
-`{ , }` // c5a
-  // c5b
+Eval vm_compute in ("<<<M1489>>>" ++ check (runes_of_ascii "
+
+  root
+    // " ++ [27880; 37322]%N ++ runes_of_ascii "
+  	// @lengthOf(
+
+packet
+
+    Packet
+	{ string o
+	@calculatedFrom( 
+""\" ++ [233]%N ++ runes_of_ascii """
+
+)
+
+    ,
+    @lengthOf(
+
+    Packet 
+        // packet A { u8 x, }
+	) body@calculatedFrom(// @lengthOf(
+	""x y"" )
+
+    `it's` ,
+
+float64 As
+
+@calculatedFrom(""`tick`""
+)  ,
+	char[]	stringy @calculatedFrom(	""" ++ [28040; 24687]%N ++ runes_of_ascii """ )
+	`doc`
+, 
+@calculatedFrom(
+    ""a	b""	)	match
+float 
+as
+
+    o
+
+    {[	""" ++ [128512]%N ++ runes_of_ascii """
+
+    ,
+007 ]
+    :
+metadata ,
+    } 
+,
+    f32a
+	a1`a\` ,
+}
+MetaData 
+repeatCount
+
+{
+packetx
+    i64_
+`" ++ [28040; 24687; 31867; 22411]%N ++ runes_of_ascii "`
+	,  // " ++ [128512]%N ++ runes_of_ascii " emoji
+zchar[
+3	]tag
+
+, i8i8 int
+,
+
+} ")).
+Eval vm_compute in ("<<<M1927>>>" ++ check (runes_of_ascii "options
+
+// @lengthOf(
+  {
+	}	packet charz{
+@rightPad(  ' ' ) 
+@calculatedFrom(""a\\"" )	repeat int crc
+
+    `two words` 
+,
+string stringy
+	@calculatedFrom(	""a	b"" 
+  // " ++ [128512]%N ++ runes_of_ascii " emoji
+) `// not a comment`
+
+, 	 //
+  char 
+i8i8 , } MetaData
+    crc	{ 	 // `tick` ""quote"" 'q'
+    crc
+    i64_  `{ , }`
+	,
+    // `tick` ""quote"" 'q'
+
+  i32 // c
+    u128
+,	// packet A { u8 x, }
+    BodyLength	Header
+,
+char[	0123456789
+    ]
+	    /// triple
+	//
+	Packet
+`u8 x,`
+,
+uint8 repeatCount
+
+, //	t
+  }
+")).
+Eval vm_compute in ("<<<M1366>>>" ++ check (runes_of_ascii "options {
+    LittleEndian = true;
+    StringPrefixLenType = u64;
+    ArrayPrefixLenType = u16;
+    FixedStringPadFromLeft = false;
+    FixedStringPadChar = ' ';
+}
+packet Logon {
+    zchar[5] Side2,
+}
+root packet Logout {
+    repeat i64 Tail,
+    Logon,
+    repeat i16 OrderId,
+    char[] venue,
+    uint64 x,
+    repeat i16 count,
+    u8 Flags,
+    match Flags as Body {
+        25 : Logon,
+    },
+    u16 Qty @calculatedFrom(""CR\
+C32""),
+}
+")).
+Eval vm_compute in ("<<<M220>>>" ++ check (runes_of_ascii "root
+    packet string_{
+//	t
+//x
+i16 o /// triple
+,
+    @tag( 4294967296
+)
+repeat char o ,Foo {match MetaDataX // trailing space 
+as leftPad
+    { 0123456789 : calculatedFrom ,
+[ 0 ]
+: u128}
+, repeat
+u
+// `tick` ""quote"" 'q'
+// @lengthOf(
+{
+    zchar[65535]body@lengthOf( float  )
+,o , asx @calculatedFrom( ""{,}"" ) `it's` // `tick` ""quote"" 'q'
+,}// `tick` ""quote"" 'q'
+,
+} ,  }
+")).
+Eval vm_compute in ("<<<M1913>>>" ++ check (runes_of_ascii "MetaData Header {
+}
+
+packet crc {
+    match zchar as leftPad {
+        7 : As,
+        0 : Packet,
+        [00] : Pad,
+        //x
+        //x
+        ""// no comment"" : calculatedFrom,
+        3 : string_,
+    },
+    falsey packetx `crlf
+    line`,// " ++ [27880; 37322]%N ++ runes_of_ascii "
+    @tag(42)
+    repeat u64 packetx,
+    @calculatedFrom(""1"")
+    repeat u16 calculatedFrom,
+}")).
+Eval vm_compute in ("<<<M368>>>" ++ check (runes_of_ascii "MetaData T
+    {
+uint8
+float ,
+repeatCount x ,	char[ 10  ] asx /// triple
+, char[ 00]
+metadata
+    `" ++ [233]%N ++ runes_of_ascii "` ,u8x asx//	t
+, } MetaData
+    trueish {	charz	string_ `crlf
+line`,  zchar[ 42 ]	_x
+//
+// `tick` ""quote"" 'q'
+, }packet o { char[]u8x
+    @calculatedFrom(""abc""  ) , } options{ x
+=
+    255 ; u // " ++ [27880; 37322]%N ++ runes_of_ascii "
+= '0'	}
+")).
+Eval vm_compute in ("<<<M89>>>" ++ check (runes_of_ascii "packet Foo // " ++ [128512]%N ++ runes_of_ascii " emoji
+{@lengthOf( f32a )
+char[
+0123456789 //	t
+] float `u8 x,` ,}
+    packet // a // b
+i64_ {@lengthOf(stringy // packet A { u8 x, }
+)
+    char[] int @calculatedFrom(""{,}"" ) ,@tag(
+007 ) //
+int64
+stringy`" ++ [233]%N ++ runes_of_ascii "` ,  char[]A @calculatedFrom(
+""\" ++ [233]%N ++ runes_of_ascii """
+    )	`doc` ,// " ++ [27880; 37322]%N ++ runes_of_ascii "
+}
+")).
+Eval vm_compute in ("<<<M361>>>" ++ check (runes_of_ascii "MetaData BodyLength { uint16 leftPad `" ++ [233]%N ++ runes_of_ascii "` // a // b
+, uint8x asx,
+    len lengthOf `// not a comment` ,
+string uint8x `doc`
+, }options {i8i8 = 0
+lengthOf =
+    0123456789 ; } packet uint8x { @lengthOf(
+pack ) float64
+u8x@lengthOf(asx //x
+)
 , }
-    // c7
-options // c8a
-  // c8b
-{ // c9
-} // c10a
-  // c10b
 ")).
+Eval vm_compute in ("<<<M1616>>>" ++ check (runes_of_ascii "
+
+  MetaData 
+zchar 
+{
+
+uint8
+	_x 
+    // `tick` ""quote"" 'q'
+		//
+`doc` , float64 
+metadata `doc` // " ++ [128512]%N ++ runes_of_ascii " emoji
+		,	zchar[ 
+42
+]
+// packet A { u8 x, }
+	// c
+	x_y_z
+
+, zchar[
+    3] Logon
+
+    `{ , }`
+
+,
+}
+
+")).
+Eval vm_compute in ("<<<M1931>>>" ++ check (runes_of_ascii "packet A {
+    Inner {
+        u8 x `a
+                
+                b`,
+        Deep {
+            u8 y `a
+                        
+                        b`,
+        },
+    },
+}")).
+Eval vm_compute in ("<<<M1565>>>" ++ check (runes_of_ascii "packet A {
+    match k as n {
+        [
+            22, 4, 66, 8, 10,
+            ""a"", ""c c"", ""e"", ""g"", ""i"",
+            ""k""
+        ] : B,
+        2 : C,
+    },
+}")).
 Eval vm_compute in ("<<<M406>>>" ++ check (runes_of_ascii "packet uint8x
 { match match pack
     as msg_type	{
@@ -991,29 +984,18 @@ a1
     { } options {packetx
     = '\x00'	; u128= ""a	b""  ; }
 ")).
-Eval vm_compute in ("<<<M1915>>>" ++ check (runes_of_ascii "MetaData
-
-    // c
-	leftPad
-{
-    chars
-    MetaDataX
-
-,
-
+Eval vm_compute in ("<<<M401>>>" ++ check (runes_of_ascii "packet uint8x
+{ { match pack
+    as msg_type	{
+    0123456789 :	float
 }
-packet 
-repeatCount
-{	char[	255
-]
-
-    uint8x`" ++ [233]%N ++ runes_of_ascii "`
-	,} 
-MetaData pack { As Foo
 ,
-
-    }")).
-Eval vm_compute in ("<<<M536>>>" ++ check (runes_of_ascii "packet uint8x
+} packet //	t
+a1
+    { } options {packetx
+    = '\x00'	; u128= ""a	b""  ; }
+")).
+Eval vm_compute in ("<<<M549>>>" ++ check (runes_of_ascii "pa\cket uint8x
 { match pack
     as msg_type	{
     0123456789 :	float
@@ -1022,9 +1004,9 @@ Eval vm_compute in ("<<<M536>>>" ++ check (runes_of_ascii "packet uint8x
 } packet //	t
 a1
     { } options {packetx
-    = '\x00'	/; u128= ""a	b""  ; }
+    = '\x00'	; u128= ""a	b""  ; }
 ")).
-Eval vm_compute in ("<<<M487>>>" ++ check (runes_of_ascii "packet uint8x
+Eval vm_compute in ("<<<M502>>>" ++ check (runes_of_ascii "packet uint8x
 { match pack
     as msg_type	{
     0123456789 :	float
@@ -1032,25 +1014,13 @@ Eval vm_compute in ("<<<M487>>>" ++ check (runes_of_ascii "packet uint8x
 ,
 } packet //	t
 a1
-    { } options packetx{
-    = '\x00'	; u128= ""a	b""  ; }
+    { } options {packetx
+    = ;	'\x00' u128= ""a	b""  ; }
 ")).
-Eval vm_compute in ("<<<M1785>>>" ++ check (runes_of_ascii "// @lengthOf(
-packet i8i8 {
-    o,
-}
-
-options {
-    MetaDataX = true;
-    BodyLength = ""packet""
-    x_y_z = 007
-    crc = ""abc"";
-    msg_type = i16
-}")).
-Eval vm_compute in ("<<<M440>>>" ++ check (runes_of_ascii "packet uint8x
+Eval vm_compute in ("<<<M415>>>" ++ check (runes_of_ascii "packet uint8x
 { match pack
-    as msg_type	{
-    0123456789 :	
+     msg_type	{
+    0123456789 :	float
 }
 ,
 } packet //	t
@@ -1058,239 +1028,223 @@ a1
     { } options {packetx
     = '\x00'	; u128= ""a	b""  ; }
 ")).
-Eval vm_compute in ("<<<M480>>>" ++ check (runes_of_ascii "packet uint8x
-{ match pack
-    as msg_type	{
-    0123456789 :	float
-}
-,
-} packet //	t
-a1
-    { }  {packetx
-    = '\x00'	; u128= ""a	b""  ; }
-")).
-Eval vm_compute in ("<<<M1720>>>" ++ check (runes_of_ascii "packet A {
-    match k as n {
-        [
-            22, 4, 66, 8, ""a"",
-            ""c c"", ""e"", ""g"", ""i""
-        ] : B,
-        2 : C,
-    },
-}")).
-Eval vm_compute in ("<<<M716>>>" ++ check (runes_of_ascii "// @lengthOf(
+Eval vm_compute in ("<<<M678>>>" ++ check (runes_of_ascii "// @lengthOf(
 packet i8i8 { u128 o , }
- { MetaDataX = true;
+options { MetaDataX = true;
+    BodyLength =""packet"" x_y_z= 007
+crc //x
+= ""abc"" ;
+    < msg_type =
+i16 }")).
+Eval vm_compute in ("<<<M679>>>" ++ check (runes_of_ascii "// @lengthOf(
+packet { i8i8 u128 o , }
+options { MetaDataX = true;
     BodyLength =""packet"" x_y_z= 007
 crc //x
 = ""abc"" ;
     msg_type =
 i16 }")).
-Eval vm_compute in ("<<<M1549>>>" ++ check (runes_of_ascii "
-packet	A 
-{
-match	k
-as n	{
-[ 1	,
-22
-	,	007
-	, 
-4 
-,  5 
-,
-66
-
-    ,7 ,
-    8
-
-    , 9
-	,  10  ]:	B
-
-    2
-: C
-} 
-,}
-")).
-Eval vm_compute in ("<<<M1142>>>" ++ check (runes_of_ascii "
-// c
-MetaData leftPad { chars MetaDataX , } packet repeatCount { char[ 255 ] uint8x `" ++ [233]%N ++ runes_of_ascii "` , } MetaData pack { As Foo , }")).
-Eval vm_compute in ("<<<M1167>>>" ++ check (runes_of_ascii "MetaData leftPad { chars MetaDataX , } packet repeatCount { char[ 255 ] // c
-uint8x `" ++ [233]%N ++ runes_of_ascii "` , } MetaData pack { As Foo , }")).
-Eval vm_compute in ("<<<M1606>>>" ++ check (runes_of_ascii "packet A {
+Eval vm_compute in ("<<<M1502>>>" ++ check (runes_of_ascii "packet A {
+    match k as n {
+        [
+            1, 007, 5, 7, 9,
+            ""bb"", ""d"", ""f"", ""h""
+        ] : B,
+        2 : C,
+    },
+}")).
+Eval vm_compute in ("<<<M16>>>" ++ check (runes_of_ascii "options { }MetaData u8x { uint8x	body`crlf
+line`
+    //	t
+    , calculatedFrom body ,
+}
+    options  {
+} root packet options1
+{  }")).
+Eval vm_compute in ("<<<M1859>>>" ++ check (runes_of_ascii "packet A {
     u16 len @lengthOf(body) `a
-    b`,
+        b`,
     u32 crc @calculatedFrom(""CRC32"") `a
-    b`,
+        b`,
     string body,
 }")).
-Eval vm_compute in ("<<<M901>>>" ++ check (runes_of_ascii "packet A {
-  match k as n {
-    [""a"", ""bb"", 007, ""d"", ""e"", 66, ""g"", ""h"", 9, ""j"", ""k""] : B,
-    2 : C
-  },
-}")).
-Eval vm_compute in ("<<<M1600>>>" ++ check (runes_of_ascii "
-packet
-
-A { match k
-
-as
-n
+Eval vm_compute in ("<<<M1151>>>" ++ check (runes_of_ascii "MetaData leftPad { chars MetaDataX // c
+, } packet repeatCount { char[ 255 ] uint8x `" ++ [233]%N ++ runes_of_ascii "` , } MetaData pack { As Foo , }")).
+Eval vm_compute in ("<<<M1183>>>" ++ check (runes_of_ascii "MetaData leftPad { chars MetaDataX , } packet repeatCount { char[ 255 ] uint8x `" ++ [233]%N ++ runes_of_ascii "` , } MetaData pack { As // c
+Foo , }")).
+Eval vm_compute in ("<<<M1514>>>" ++ check (runes_of_ascii "packet
+A{
+    match k 
+as n 
 {
-[  1 ,
-    22 ,
-	007 ,
-4  , 5 , 66, 
-7 
-] : B 2 :
+[
+    ""a"",  ""bb""
+    , 007  ,""d"" , 
+""e"" ,
+	66 , ""g""
 
-    C }
+, 
+""h"" ]
+    :B 2	:
+C
+}, } ")).
+Eval vm_compute in ("<<<M1269>>>" ++ check (runes_of_ascii "  packet	B
+{
+u8 a , 
+string	s
+	,
+    }
+    root
+	packet P
 
-    ,}
+{ u16
 
+L @lengthOf( B ), B
+    , 
+u8  t ,
+}
 ")).
-Eval vm_compute in ("<<<M656>>>" ++ check (runes_of_ascii "// @lengthOf(
-packet i8i8 { u128 o , }
-options { MetaDataX = true;
-    BodyLength =""packet"" x_y_z")).
-Eval vm_compute in ("<<<M886>>>" ++ check (runes_of_ascii "packet A {
+Eval vm_compute in ("<<<M868>>>" ++ check (runes_of_ascii "packet A {
   match k as n {
-    [1, 22, ""c c"", 4, 5, ""f"", 7, 8, ""i"", 10] : B,
+    [""a"", ""bb"", ""c c"", ""d"", ""e"", ""f"", ""g"", ""h"", ""i""] : B
     2 : C
   },
 }")).
-Eval vm_compute in ("<<<M623>>>" ++ check (runes_of_ascii "
+Eval vm_compute in ("<<<M875>>>" ++ check (runes_of_ascii "packet A {
+  match k as n {
+    [""a"", ""bb"", 007, ""d"", ""e"", 66, ""g"", ""h"", 9] : B,
+    2 : C
+  },
+}")).
+Eval vm_compute in ("<<<M615>>>" ++ check (runes_of_ascii "
 packet
     asx {match u128 as lengthOf
 {
 //	t
 // `tick` ""quote"" 'q'
 255 : x ,
-    } ,	} }")).
-Eval vm_compute in ("<<<M589>>>" ++ check (runes_of_ascii "
+    match ,	}")).
+Eval vm_compute in ("<<<M645>>>" ++ check (runes_of_ascii "
 packet
     asx {match u128 as lengthOf
-255
+{
 //	t
 // `tick` ""quote"" 'q'
-{ : x ,
+255 : a" ++ [769]%N ++ runes_of_ascii "b ,
     } ,	}")).
-Eval vm_compute in ("<<<M936>>>" ++ check (runes_of_ascii "packet A {
-    B b `a
-    b
-  c`,
-    B `a
-    b
-  c`,
-    repeat B bs `a
-    b
-  c`,
+Eval vm_compute in ("<<<M619>>>" ++ check (runes_of_ascii "
+packet
+    asx {match u128 as lengthOf
+{
+//	t
+// `tick` ""quote"" 'q'
+255 : x ,
+    } }	,")).
+Eval vm_compute in ("<<<M1572>>>" ++ check (runes_of_ascii "
+packet  calculatedFrom {  repeat 	 // packet A { u8 x, }
+
+string Foo`{ , }`
+    ,
+}
+")).
+Eval vm_compute in ("<<<M1730>>>" ++ check (runes_of_ascii "packet A {
+    match k as n {
+        [1, 22, 4, ""c c""] : B,
+        2 : C,
+    },
 }")).
-Eval vm_compute in ("<<<M861>>>" ++ check (runes_of_ascii "packet A {
+Eval vm_compute in ("<<<M1713>>>" ++ check (runes_of_ascii "
+packet
+A{  match
+k
+as n
+
+    {
+[  1
+    ,22 
+, 007
+]
+:
+	B  ,
+2:	C  }, }
+
+")).
+Eval vm_compute in ("<<<M1703>>>" ++ check (runes_of_ascii "root packet P {
+    u16 a,
+    u32 Sum @calculatedFrom(""CR\
+        C32""),
+}")).
+Eval vm_compute in ("<<<M807>>>" ++ check (runes_of_ascii "packet A {
   match k as n {
-    [1, 22, ""c c"", 4, 5, ""f"", 7, 8] : B
+    [""a"", 22, ""c c"", 4] : B
     2 : C
   },
 }")).
-Eval vm_compute in ("<<<M1273>>>" ++ check (runes_of_ascii "options {
-    FixedStringPadFromLeft = true;
-}
-root packet P {
-    char[4] z,
-}
-")).
-Eval vm_compute in ("<<<M1282>>>" ++ check (runes_of_ascii "root 
-packet
-
-    P  { u16	a ,
-
-u32
-
-Sum	@calculatedFrom( ""CRC32""
-	) ,
-
-} ")).
-Eval vm_compute in ("<<<M789>>>" ++ check (runes_of_ascii "packet A {
-  match k as n {
-    [""a"", ""bb"", ""c c""] : B,
-    2 : C
-  },
+Eval vm_compute in ("<<<M1087>>>" ++ check (runes_of_ascii "packet A { match k as n { [ // a
+ 1 // b
+ , // c
+ 2 ] // d
+ : B }, }")).
+Eval vm_compute in ("<<<M534>>>" ++ check (runes_of_ascii "packet uint8x
+{ match pack
+    as msg_type	{
+    0123456789 :	")).
+Eval vm_compute in ("<<<M1891>>>" ++ check (runes_of_ascii "
+packet 	 // c
+  body
+{
+i32
+f32a
+`{ , }` ,
+} options
+{ } ")).
+Eval vm_compute in ("<<<M786>>>" ++ check (runes_of_ascii "packet A { Inner { match k as n { [1,22] : B, }, }, }")).
+Eval vm_compute in ("<<<M1217>>>" ++ check (runes_of_ascii "packet body { i32 f32a `{ , }` , } options { // c
 }")).
-Eval vm_compute in ("<<<M1400>>>" ++ check (runes_of_ascii "
-packet
-    A
-
-{ Inner
-	{
-	u8 x`x
-`  ,
-	Deep	{
-u8
-y
-`x
-`	, } ,}	, }")).
-Eval vm_compute in ("<<<M155>>>" ++ check (runes_of_ascii "options
-{calculatedFrom
-= ""abc""
-;float=i16
-} // trailing space ")).
-Eval vm_compute in ("<<<M1102>>>" ++ check (runes_of_ascii "// top
-MetaData
-    // c0
-tag
-    // c1
-{ // c2
-}
-    // c3
-")).
-Eval vm_compute in ("<<<M1696>>>" ++ check (runes_of_ascii "packet body {
-    i32 f32a `{ , }`,
-}
-
-// c
-options {
-}")).
-Eval vm_compute in ("<<<M1209>>>" ++ check (runes_of_ascii "packet body { i32 f32a `{ , }` // c
-, } options { }")).
-Eval vm_compute in ("<<<M927>>>" ++ check (runes_of_ascii "MetaData M {
+Eval vm_compute in ("<<<M921>>>" ++ check (runes_of_ascii "MetaData M {
     u8 x `a
 b`,
     T t `a
 b`,
 }")).
-Eval vm_compute in ("<<<M724>>>" ++ check (runes_of_ascii "// @lengthOf(
-packet i8i8 { u128 o , }
-opt")).
-Eval vm_compute in ("<<<M935>>>" ++ check (runes_of_ascii "packet A {
-    u8 x `a
-    b
-  c`,
-}")).
-Eval vm_compute in ("<<<M1636>>>" ++ check (runes_of_ascii "packet A {
-    u8 x `d" ++ [133]%N ++ runes_of_ascii "`,// c" ++ [133]%N ++ runes_of_ascii "
-}")).
-Eval vm_compute in ("<<<M1058>>>" ++ check (runes_of_ascii "packet A {
- u8 x `d" ++ [6158]%N ++ runes_of_ascii "`, // c" ++ [6158]%N ++ runes_of_ascii "
-}")).
-Eval vm_compute in ("<<<M1776>>>" ++ check (runes_of_ascii "
-MetaData u 	 // c
+Eval vm_compute in ("<<<M1512>>>" ++ check (runes_of_ascii "
+root
+	packet A
+{
+	u8
+x 
+`x
+`,
 
-  { }")).
-Eval vm_compute in ("<<<M1571>>>" ++ check (runes_of_ascii "
-// c 
-
-packet A{ 
+    }")).
+Eval vm_compute in ("<<<M200>>>" ++ check (runes_of_ascii "options {
+options1 =
+    ' ' ;
 }
 
 ")).
-Eval vm_compute in ("<<<M162>>>" ++ check (runes_of_ascii "
-packet f32a  { }
-")).
-Eval vm_compute in ("<<<M1007>>>" ++ check (runes_of_ascii "// c" ++ [8202]%N ++ runes_of_ascii "
-packet A {
+Eval vm_compute in ("<<<M738>>>" ++ check (runes_of_ascii "\B1ss""~3@|Nr!9$[0mx>ti>t+Fp_cN&")).
+Eval vm_compute in ("<<<M941>>>" ++ check (runes_of_ascii "packet A {
+    u8 x `a
+
+b`,
 }")).
-Eval vm_compute in ("<<<M729>>>" ++ check (runes_of_ascii "// only a comment")).
-Eval vm_compute in ("<<<M1498>>>" ++ check (runes_of_ascii "packet A {
-}// c")).
-Eval vm_compute in ("<<<M84>>>" ++ check (runes_of_ascii " // " ++ [27880; 37322]%N)).
-Eval vm_compute in ("<<<M769>>>" ++ check ([12]%N ++ runes_of_ascii "7" ++ [30]%N)).
+Eval vm_compute in ("<<<M1084>>>" ++ check (runes_of_ascii "packet A { // a
+ u8 x, }")).
+Eval vm_compute in ("<<<M747>>>" ++ check (runes_of_ascii "true int16 u16 { f32a")).
+Eval vm_compute in ("<<<M1131>>>" ++ check (runes_of_ascii "MetaData
+// c
+u { }")).
+Eval vm_compute in ("<<<M1026>>>" ++ check (runes_of_ascii "packet A {
+}
+// c" ++ [8287]%N)).
+Eval vm_compute in ("<<<M1004>>>" ++ check (runes_of_ascii "packet A {
+}// c" ++ [8202]%N)).
+Eval vm_compute in ("<<<M1072>>>" ++ check (runes_of_ascii "
+
+  packet A {}")).
+Eval vm_compute in ("<<<M399>>>" ++ check (runes_of_ascii "packet")).
+Eval vm_compute in ("<<<M733>>>" ++ check (runes_of_ascii "
+
+
+")).
